@@ -80,6 +80,9 @@ func run(c *vrt.Ctx) {
 		n = c.Pick(2500, 40000)
 		vrt.Parallel(n, func(i int) { h.runHistory(randomHistory(c.RNG("hist", i))) })
 
+		// Settings.Runtime against a guaranteed elapsed time
+		runAll(runtimeCases())
+
 		// strictly convex quadratics, unlimited runs
 		runAll(quadCases(c, c.Pick(8, 80)))
 
